@@ -234,17 +234,23 @@ class Env:
         self.owned = set()    # TimePoint locals holding an object no other name can reach
         self.partial = {}     # owned local under construction -> frozenset of assigned slots
         self.nonnull = set()  # (local, slot) of value objects known not to be None here
+        self.truncs = set()   # locals bound to `<TimePoint local>._truncated` and not rebound since
+        self.known = {}       # bool local -> its value on this path (inside `if x:` / its else)
 
     def copy(self):
         e = Env()
         e.ty, e.owned, e.partial = dict(self.ty), set(self.owned), dict(self.partial)
         e.nonnull = set(self.nonnull)
+        e.truncs = set(self.truncs)
+        e.known = dict(self.known)
         return e
 
     def drop(self, name):
         self.ty.pop(name, None)
         self.owned.discard(name)
         self.partial.pop(name, None)
+        self.truncs.discard(name)
+        self.known.pop(name, None)
         self.nonnull = {(o, s) for o, s in self.nonnull if o != name}
 
 
@@ -578,7 +584,8 @@ class ClassUnit:
                         kind = {"param%d" % fx.params.index(n.id)}
                     else:
                         kind = {"alias"}
-                return [], Val("v_" + n.id, ty, kind=kind, static=(False if ty == NONE else None))
+                static = False if ty == NONE else env.known.get(n.id) if ty == B else None
+                return [], Val("v_" + n.id, ty, kind=kind, static=static)
             raise Reject("name %s is not a (definitely) bound local" % n.id)
         if isinstance(n, ast.UnaryOp):
             if isinstance(n.op, ast.USub):
@@ -1531,6 +1538,20 @@ class ClassUnit:
             env2.partial[name] = frozenset()
             return pad + "let v_%s := py_empty_instance in\n" % name + \
                 self.block(rest, env2, ctx, fx, ind)
+        if isinstance(s.value, ast.IfExp) and len(tgts) == 1:
+            # x = (a if c else b)  is  if c: x = a  else: x = b   (same evaluation order); the
+            # statement form copes with branches of different types (Python is dynamically typed)
+            node = ast.If(test=s.value.test,
+                          body=[ast.copy_location(ast.Assign(targets=tgts, value=s.value.body), s)],
+                          orelse=[ast.copy_location(ast.Assign(targets=tgts, value=s.value.orelse), s)])
+            ast.copy_location(node, s)
+            ast.fix_missing_locations(node)
+            try:
+                _b, probe = self.expr(s.value, env, fx)
+            except Reject:
+                probe = None
+            if probe is None:
+                return self.if_stmt(node, rest, env, ctx, fx, ind)
         binds, v = self.expr(s.value, env, fx)
         out = self.lines(ind, binds, "")
         env2 = env
@@ -1560,6 +1581,10 @@ class ClassUnit:
             else:
                 line, env2 = self.assign_target(tgt, v, env2, fx, pad)
                 out += line
+                if isinstance(tgt, ast.Name) and v.ty == B and self.is_truncated_flag(s.value, env) \
+                        and isinstance(s.value, ast.Attribute):
+                    env2 = env2.copy()
+                    env2.truncs.add(tgt.id)
         return out + self.block(rest, env2, ctx, fx, ind)
 
     def return_stmt(self, s, env, ctx, fx, ind):
@@ -1603,6 +1628,9 @@ class ClassUnit:
         for nm in names:
             env2.drop(nm)
         env2.nonnull = ends[0].nonnull & ends[1].nonnull & env2.nonnull
+        env2.truncs = ends[0].truncs & ends[1].truncs & env2.truncs
+        env2.known = {k: v for k, v in env2.known.items()
+                      if ends[0].known.get(k) == v and ends[1].known.get(k) == v}
         for nm in names:
             a, b = ends[0].ty.get(nm), ends[1].ty.get(nm)
             if a is None or b is None or is_static(a) or is_static(b):
@@ -1622,9 +1650,21 @@ class ClassUnit:
                         env2.partial[nm] = got
         return env2, merged, types
 
+    @staticmethod
+    def refine_bool(test, env, value):
+        """inside `if x:` (x a bool local) x is True, inside its else False: a later `if x:` /
+        `a if x else b` on the same path is decided"""
+        neg = isinstance(test, ast.UnaryOp) and isinstance(test.op, ast.Not)
+        n = test.operand if neg else test
+        if isinstance(n, ast.Name) and env.ty.get(n.id) == B:
+            env = env.copy()
+            env.known[n.id] = value != neg
+        return env
+
     def refine_true(self, test, env, fx, ind):
         """`if x:` / `if obj._slot:` -- in the true branch the value is not None"""
         pad = "  " * ind
+        env = self.refine_bool(test, env, True)
         if isinstance(test, ast.Name) and is_opt(env.ty.get(test.id, None)) \
                 and env.ty[test.id][1] in (Z, Q):
             t = fx.fresh()
@@ -1638,9 +1678,29 @@ class ClassUnit:
             return "", env2
         return "", env
 
+    def is_truncated_flag(self, n, env):
+        """`<TimePoint local>._truncated`, or a local bound to it and not rebound since"""
+        if isinstance(n, ast.Attribute) and n.attr == "_truncated" and isinstance(n.value, ast.Name) \
+                and env.ty.get(n.value.id) == TP:
+            return True
+        return isinstance(n, ast.Name) and n.id in env.truncs and env.ty.get(n.id) == B
+
     def truncated_test(self, test, env):
-        return (isinstance(test, ast.Attribute) and test.attr == "_truncated"
-                and isinstance(test.value, ast.Name) and env.ty.get(test.value.id) == TP)
+        """True: the test IS a truncated flag (the `then` branch is truncated-only); False: it is
+        `not <flag>` (the `else` branch is truncated-only); None: neither"""
+        if self.is_truncated_flag(test, env):
+            return True
+        if isinstance(test, ast.UnaryOp) and isinstance(test.op, ast.Not) \
+                and self.is_truncated_flag(test.operand, env):
+            return False
+        return None
+
+    def cut_branch(self, s, fx, env, exc, ind):
+        # truncated TimePoints are out of scope: a branch reached only under `<obj>._truncated`
+        # that is outside the subset is cut (a pseudo outcome, never a Python behaviour)
+        self.cuts.append(("%s.%s, line %d: `if %s:`" % (CLS, fx.name, s.lineno, ast.unparse(s.test)),
+                          str(exc)))
+        return "  " * (ind + 1) + "Raise NotTranslated"
 
     def if_stmt(self, s, rest, env, ctx, fx, ind):
         pad = "  " * ind
@@ -1649,18 +1709,23 @@ class ClassUnit:
             br = s.body if k else s.orelse
             return self.block(br + ([] if always_returns(br) else rest), env, ctx, fx, ind)
         pre, env_t = self.refine_true(s.test, env, fx, ind + 1)
+        env_f = self.refine_bool(s.test, env, False)
         if contains([s], (ast.Return, ast.Raise, ast.Break, ast.Continue)):
+            polarity = self.truncated_test(s.test, env)
             try:
                 a = pre + self.block(s.body + ([] if always_returns(s.body) else rest), env_t, ctx, fx, ind + 1)
             except Reject as exc:
-                # truncated TimePoints are out of scope: a branch guarded by `<obj>._truncated`
-                # that is outside the subset is cut (a pseudo outcome, never a Python behaviour)
-                if not self.truncated_test(s.test, env):
+                if polarity is not True:
                     raise
-                self.cuts.append(("%s.%s, line %d: `if %s:`" % (CLS, fx.name, s.lineno, ast.unparse(s.test)),
-                                  str(exc)))
-                a = "  " * (ind + 1) + "Raise NotTranslated"
-            b = self.block(s.orelse + ([] if always_returns(s.orelse) else rest), env, ctx, fx, ind + 1)
+                a = self.cut_branch(s, fx, env, exc, ind)
+            try:
+                b = self.block(s.orelse + ([] if always_returns(s.orelse) else rest), env_f, ctx, fx, ind + 1)
+            except Reject as exc:
+                # `if not <flag>: ...` : the else branch (with what follows it when the then
+                # branch always returns) is reached only for truncated points
+                if polarity is not False or not (always_returns(s.body) or not rest):
+                    raise
+                b = self.cut_branch(s, fx, env, exc, ind)
             return self.lines(ind, cb, "%sif %s then\n%s\n%selse\n%s" % (pad, c, a, pad, b))
         ends = []
 
@@ -1669,7 +1734,7 @@ class ClassUnit:
             return "tt"
         n0 = fx.n
         self.block(s.body, env_t, ctx.with_fall(probe), fx, 0)
-        self.block(s.orelse, env, ctx.with_fall(probe), fx, 0)
+        self.block(s.orelse, env_f, ctx.with_fall(probe), fx, 0)
         fx.n = n0
         if len(ends) != 2:
             raise Reject("internal: branch ends")
@@ -1680,7 +1745,7 @@ class ClassUnit:
             # typed): the rest of the block is translated once per branch
             pre, env_t = self.refine_true(s.test, env, fx, ind + 1)
             a = pre + self.block(s.body + rest, env_t, ctx, fx, ind + 1)
-            b = self.block(s.orelse + rest, env, ctx, fx, ind + 1)
+            b = self.block(s.orelse + rest, env_f, ctx, fx, ind + 1)
             return self.lines(ind, cb, "%sif %s then\n%s\n%selse\n%s" % (pad, c, a, pad, b))
 
         def out(e, i):
@@ -1691,7 +1756,7 @@ class ClassUnit:
             return "  " * i + "Ok " + (("(" + tup + ")") if len(merged) > 1 else tup)
         pre, env_t = self.refine_true(s.test, env, fx, ind + 2)
         a = pre + self.block(s.body, env_t, ctx.with_fall(out), fx, ind + 2)
-        b = self.block(s.orelse, env, ctx.with_fall(out), fx, ind + 2)
+        b = self.block(s.orelse, env_f, ctx.with_fall(out), fx, ind + 2)
         if len(merged) > 1:
             tmp = fx.fresh()
             head = "%s%s <- (if %s then\n%s\n%s  else\n%s) ;;\n%slet '(%s) := %s in\n" % (
@@ -1771,6 +1836,8 @@ class ClassUnit:
         e = env.copy()
         for nm, ty in zip(state, types):
             e.ty[nm] = ty
+            e.truncs.discard(nm)
+            e.known.pop(nm, None)
             e.nonnull = {(o, s) for o, s in e.nonnull if o != nm}
         return e
 
@@ -1882,10 +1949,42 @@ class ClassUnit:
         return self.lines(ind, binds, head) + self.after_loop(
             f, state, types, has_ret, s, rest, env, ctx, fx, ind, list(s.orelse))
 
+    @staticmethod
+    def normal_while(s):
+        """`while True:` whose body starts with `if not c: break` (or `if c: A else: break`) is the
+        loop `while c: A; rest of the body` -- the same tests are evaluated at the same points (there
+        is no while/else).  Normalised so that both spellings give the same translation."""
+        if not (isinstance(s.test, ast.Constant) and s.test.value is True and s.body
+                and isinstance(s.body[0], ast.If)):
+            return s
+        first = s.body[0]
+
+        def only_break(ss):
+            return len(ss) == 1 and isinstance(ss[0], ast.Break)
+        if only_break(first.body) and not first.orelse:
+            t = first.test
+            test = t.operand if (isinstance(t, ast.UnaryOp) and isinstance(t.op, ast.Not)) \
+                else ast.copy_location(ast.UnaryOp(op=ast.Not(), operand=t), t)
+            body = list(s.body[1:])
+        elif only_break(first.orelse) and first.body:
+            test = first.test
+            body = list(first.body) + list(s.body[1:])
+            if always_returns(first.body):
+                return s
+        else:
+            return s
+        if not body:
+            body = [ast.copy_location(ast.Pass(), s)]
+        new = ast.While(test=test, body=body, orelse=[])
+        ast.copy_location(new, s)
+        ast.fix_missing_locations(new)
+        return new
+
     def while_stmt(self, s, rest, env, ctx, fx, ind):
         pad = "  " * ind
         if s.orelse:
             raise Reject("while/else")
+        s = self.normal_while(s)
         state = self.loop_state(s.body, [], env)
         has_ret = contains(s.body, (ast.Return,))
         n0 = fx.n
@@ -1895,8 +1994,10 @@ class ClassUnit:
         env_b = self.loop_env(env, state, types)
         ipad = "  " * (ind + 2)
         cb, c, k = self.test(s.test, env_b, fx)
-        if k is not None:
-            raise Reject("while with a statically decided test")
+        if k is False:
+            raise Reject("while with a test that is statically false")
+        if k is True:       # `while True:` left only through break / return
+            cb, c = [], "true"
         cond = self.lines(ind + 2, cb, ipad + "Ok " + c)
         body = self.block(s.body, env_b, self.body_ctx(state, types, ctx), fx, ind + 2)
         init = self.state_tuple(env, state, types)
@@ -2323,7 +2424,14 @@ def build_text():
                 emitted.append(r["coq"])
                 note = (" [%s]" % r["sig"]) if r["sig"] else ""
                 kind = " -- mutator: the result is the new state of self" if r["proc"] else ""
-                body.append("(* %s%s%s *)\n%s\n" % (r["src"], note, kind, r["text"]))
+                text = r["text"]
+                meth = key[0]
+                if not r["proc"] and not meth.startswith("def ") and not meth.startswith("__") \
+                        and not any(meth == q[0] for q in REQUIRED):
+                    # a private helper method that the entry points call (none today; after a
+                    # refactor e.g. `_get_max_day_in_month(self)`): the proofs see through it
+                    text += "\n#[global] Hint Unfold %s : gencode4_helpers." % r["coq"]
+                body.append("(* %s%s%s *)\n%s\n" % (r["src"], note, kind, text))
 
     for name, sig in REQUIRED:
         coq = entry_coq(name, sig)
